@@ -370,6 +370,8 @@ struct Slot {
     clock_off: u64,
     prio: i64,
     yields_in_row: u32,
+    /// the handle this (finished) thread had now names another thread
+    handle_recycled: bool,
 }
 
 #[derive(Clone, Debug, Default, serde::Serialize, serde::Deserialize)]
@@ -599,7 +601,21 @@ impl Sim {
         // algorithm, plugin, ...), else the innermost frame of the code under test.
         let site = if what.contains("budget") { stack_site() } else { String::new() };
         let what = if site.is_empty() { what.to_string() } else { format!("{} @{}", what, site) };
-        let msg = format!("{{\"fatal\":{:?},\"steps\":{},\"switches\":{}}}\n", what, self.stats.steps, self.stats.switches);
+        // who was doing what (diagnosis of a budget stop: a thread that spins while another never wakes)
+        let mut diag = format!("cur=t{} clock_ns={} live={}", self.cur, self.clock_ns, self.live);
+        for t in 0..self.nthreads {
+            let st = match self.slots[t].state {
+                TState::Unused => "unused".to_string(),
+                TState::Starting => "starting".to_string(),
+                TState::Runnable => "runnable".to_string(),
+                TState::Finished => "finished".to_string(),
+                TState::Blocked { addr, deadline, seq } => format!("blocked(addr={:x},deadline={:?},seq={})", addr, deadline, seq),
+            };
+            if self.slots[t].state != TState::Finished {
+                diag.push_str(&format!(" t{}:{}{}", t, st, if self.slots[t].pthread == 0 { "[no handle]" } else { "" }));
+            }
+        }
+        let msg = format!("{{\"fatal\":{:?},\"steps\":{},\"switches\":{},\"diag\":{:?}}}\n", what, self.stats.steps, self.stats.switches, diag);
         unsafe {
             if let Some(h) = FATAL_CB {
                 h(&what, self);
@@ -884,6 +900,7 @@ pub fn start(cfg: SimCfg, dec: Decider, fatal_fd: i32) {
             clock_off: 0,
             prio: 0,
             yields_in_row: 0,
+            handle_recycled: false,
         });
     }
     let mut s = Box::new(Sim {
@@ -1062,8 +1079,23 @@ pub fn register_thread() -> usize {
 }
 /// called by the spawner after `spawn` returned: the new thread may now be scheduled
 pub fn thread_spawned(id: usize) {
+    thread_spawned_as(id, 0)
+}
+/// ... with the handle the creator was given. The C library recycles handles (the stack of a thread that has
+/// really exited - at a moment the simulator does not control - is handed to the next one created), so a slot of
+/// a finished thread must not keep a handle that now names a new thread.
+pub fn thread_spawned_as(id: usize, handle: libc::pthread_t) {
     with(|s| {
         s.slots[id].state = TState::Runnable;
+        if handle != 0 {
+            for t in 1..s.nthreads {
+                if t != id && s.slots[t].pthread == handle {
+                    s.slots[t].pthread = 0;
+                    s.slots[t].handle_recycled = true;
+                }
+            }
+            s.slots[id].pthread = handle;
+        }
         let me = s.cur;
         s.ev(me, Pt::Spawn, id as u64, 0);
     })
@@ -1073,7 +1105,14 @@ pub fn thread_begin(id: usize) {
     // not registered yet: wait for the token without touching simulator state
     let s = sim();
     s.wait_token(id);
-    s.slots[id].pthread = unsafe { libc::pthread_self() };
+    let me = unsafe { libc::pthread_self() };
+    for t in 1..s.nthreads {
+        if t != id && s.slots[t].pthread == me {
+            s.slots[t].pthread = 0;
+            s.slots[t].handle_recycled = true;
+        }
+    }
+    s.slots[id].pthread = me;
     TID.with(|c| c.set(id));
 }
 /// last thing a simulated thread does
